@@ -29,6 +29,10 @@ func init() {
 }
 
 func runC15(c *Ctx) {
+	if !importing {
+		importObls(c, "C10", runC10, "X10", func(k string) bool { return containsAny(k, "transports/scramblesuit") })
+		importObls(c, "C12", runC12, "X12", func(k string) bool { return containsAny(k, "common/csrand", "common/probdist") })
+	}
 	p := c.P
 	sharedDigestRule(c, p, "R4", "transports/scramblesuit")
 	// the UniformDH handshake is common/uniformdh: its structural rules (C13.R1: even exponent, X / p-X,
@@ -363,6 +367,57 @@ func c15Tickets(c *Ctx, p *Prog) {
 		ob.HoldNT("delete + serialize dominate the %d returning site(s); isValid() guards them", nOut)
 	}
 
+	// sender side of the packet MAC: Reset, then exactly the encrypted packet, then Sum
+	obM := c.Obl("R2", "transports/scramblesuit:(*ssConn).makePayloadPacket#mac-input", "the MAC sent with a packet is HMAC(tx key) over exactly the encrypted packet: the running HMAC is Reset before, the packet written once, then Sum — nothing left over from an earlier use (the ticket handshake shares the object) enters it")
+	if mk2 := p.Func("transports/scramblesuit:(*ssConn).makePayloadPacket"); mk2 == nil {
+		obM.Undecide("makePayloadPacket not found")
+	} else {
+		badM := ""
+		nSum := 0
+		allInstrs(mk2, func(in ssa.Instruction) {
+			call, ok := in.(*ssa.Call)
+			if !ok || !call.Common().IsInvoke() || call.Common().Method.Name() != "Sum" {
+				return
+			}
+			nSum++
+			ops, start, why := p.AccumSeq(call)
+			switch {
+			case why != "":
+				badM = "the MAC state at " + p.InstrPos(call) + " is not determined by this call alone: " + why
+			case !strings.HasPrefix(start, "Reset at"):
+				badM = "the HMAC is not Reset before the packet is written (" + start + ")"
+			default:
+				ws := writesOf(ops)
+				if len(ws) != 1 {
+					badM = fmt.Sprintf("%d writes into the HMAC between Reset and Sum, expected the packet only", len(ws))
+				} else {
+					// the written buffer is the one that was encrypted in place before
+					enc := false
+					for _, xc := range p.CallsIn(mk2, "(crypto/cipher.Stream).XORKeyStream") {
+						_ = xc
+					}
+					allInstrs(mk2, func(in2 ssa.Instruction) {
+						xc, ok := in2.(*ssa.Call)
+						if ok && xc.Common().IsInvoke() && xc.Common().Method.Name() == "XORKeyStream" && unspill(xc.Common().Args[0]) == unspill(ws[0]) && unspill(xc.Common().Args[1]) == unspill(ws[0]) && instrDominates(xc, call) {
+							enc = true
+						}
+					})
+					if !enc {
+						badM = "the MAC does not cover the packet as encrypted"
+					}
+				}
+			}
+		})
+		if nSum != 1 && badM == "" {
+			badM = fmt.Sprintf("%d Sum calls", nSum)
+		}
+		if badM != "" {
+			obM.Violate("%s", badM)
+		} else {
+			obM.HoldNT("encrypt(pkt); mac.Reset(); mac.Write(pkt); mac.Sum(nil)[:16]")
+		}
+	}
+
 	// ---- the same two stream rules as for obfs4 (C01.R5, C05.R5)
 	readErrPriority(c, p, "R2", "transports/scramblesuit:(*ssConn).Read", "(*$M/transports/scramblesuit.ssConn).readPackets")
 	remainderRules(c, p, "R1", "R1", "transports/scramblesuit:(*ssConn).clientHandshake", "transports/scramblesuit:(*ssConn).readPackets", tSSConn, "")
@@ -390,6 +445,11 @@ func c15Tickets(c *Ctx, p *Prog) {
 			v := unspill(r.Results[0])
 			if cc, _ := callOf(v); isWrite(cc) {
 				n++
+				// what is written is the JSON encoding (an empty store is "{}", which the loader accepts; an
+				// empty FILE is not valid JSON and blocks the next start)
+				if mc, idx := callOf(unspill(cc.Common().Args[1])); mc == nil || idx != 0 || p.CalleeID(mc.Common()) != "encoding/json.Marshal" {
+					bad = "the file written at " + p.InstrPos(cc) + " is not the json.Marshal encoding of the store"
+				}
 				continue
 			}
 			if sff.ProvablyNonNil(r.Results[0], r.Block(), 0) {
